@@ -31,6 +31,8 @@ type retEdge struct {
 	pos     token.Pos
 }
 
+// (fx.matchedSites: call-site clauses that applied to at least one call of the unit)
+
 type panicEdge struct {
 	cond  Term
 	state *State
@@ -71,6 +73,7 @@ type fx struct {
 	depth    int
 	vals     map[ssa.Value]Val
 	contract *Contract // contract of the top-level function
+	matchedSites map[*CallSiteSpec]bool
 
 	in        map[*ssa.BasicBlock][]*edge // per predecessor index
 	loops     map[*ssa.BasicBlock]*loopInfo
